@@ -47,8 +47,12 @@ func accessLine(a lockfacts.Access) string {
 		}
 		return 0
 	}
-	return fmt.Sprintf("access s=%s f=%s fn=%s w=%d locks=%s atomic=%d init=%d pos=%s", proto.Enc(a.Struct), proto.Enc(a.Field),
-		proto.Enc(a.Func), b(a.Write), ls, b(a.Atomic), b(a.Init), proto.Enc(a.Pos))
+	via := a.Via
+	if via == "" {
+		via = "-"
+	}
+	return fmt.Sprintf("access s=%s f=%s fn=%s w=%d locks=%s atomic=%d init=%d region=%d via=%s pos=%s", proto.Enc(a.Struct), proto.Enc(a.Field),
+		proto.Enc(a.Func), b(a.Write), ls, b(a.Atomic), b(a.Init), a.Region, proto.Enc(via), proto.Enc(a.Pos))
 }
 
 func gen(r *prng.R, f proto.Flags, emit func(proto.Case)) {
@@ -77,11 +81,15 @@ func gen(r *prng.R, f proto.Flags, emit func(proto.Case)) {
 		emit(proto.Case{ID: "field:" + k, Ops: ops})
 	}
 	genSharing(r, f, emit)
+	genStress(r, f, emit)
 }
 
 func exec(c proto.Case, o *proto.Out) []string {
 	if len(c.Ops) > 0 && (strings.HasPrefix(c.Ops[0], "script") || strings.HasPrefix(c.Ops[0], "run")) {
 		return execSharing(c, o)
+	}
+	if len(c.Ops) > 0 && strings.HasPrefix(c.Ops[0], "stress-") {
+		return execStress(c, o)
 	}
 	outs := make([]string, len(c.Ops))
 	written := false
